@@ -450,6 +450,7 @@ def verify_function(repo, registry, qualname, feas_ms=1500, solve_now=True, z3_m
     outcomes = {}
     reach = {}
     seen_paths = 0
+    wall_s = float(os.environ.get("PYVC_WALL_S", "0") or 0)
 
     def absorb(out):
         rep.unsupported.extend(out["unsupported"])
@@ -491,6 +492,15 @@ def verify_function(repo, registry, qualname, feas_ms=1500, solve_now=True, z3_m
                         absorb(out)
                         for alt in out["alternatives"]:
                             seen_paths += 1
+                            if (wall_s and time.time() - t0 > wall_s
+                                    and any(r_["status"] != "proved" for r_ in rep.obligations)):
+                                # a verdict against this function is already in hand: further paths would
+                                # only add to it (a proof is never cut short - with nothing refuted or
+                                # unknown so far the exploration goes on to the end)
+                                note = f"exploration stopped after {int(wall_s)} s with an undischarged obligation in hand"
+                                if note not in rep.unsupported:
+                                    rep.unsupported.append(note)
+                                continue
                             if seen_paths > MAX_PATHS:
                                 if f"more than {MAX_PATHS} paths" not in rep.unsupported:
                                     rep.unsupported.append(f"more than {MAX_PATHS} paths")
